@@ -164,3 +164,43 @@ func heldGuard(p *core.Prog, la *core.LockAnalysis, ls core.LockSet, field core.
 	}
 	return ls.HasField(core.FieldID{Owner: field.Owner, Name: g}, write)
 }
+
+// effectSites lists the instructions of fn that perform the effect: instructions satisfying pred, and calls to
+// module functions every path of which performs it (a helper extracted around the effect, e.g. one that takes the
+// lock with a deferred unlock and therefore cannot be normalised away).
+func effectSites(fn *ssa.Function, pred func(ssa.Instruction) bool, depth int) []ssa.Instruction {
+	var out []ssa.Instruction
+	core.EachInstr(fn, func(in ssa.Instruction) {
+		if pred(in) {
+			out = append(out, in)
+			return
+		}
+		if depth <= 0 {
+			return
+		}
+		c, ok := in.(*ssa.Call)
+		if !ok {
+			return
+		}
+		callee := c.Call.StaticCallee()
+		if callee == nil || len(callee.Blocks) == 0 || callee == fn {
+			return
+		}
+		inner := effectSites(callee, pred, depth-1)
+		if len(inner) == 0 {
+			return
+		}
+		w := core.PathQuery{Fn: callee, Target: core.IsReturn, Avoid: func(x ssa.Instruction) bool {
+			for _, e := range inner {
+				if x == e {
+					return true
+				}
+			}
+			return false
+		}}.Find()
+		if w == nil {
+			out = append(out, in)
+		}
+	})
+	return out
+}
